@@ -238,6 +238,9 @@ func (k *Kernel) Mkfifo(path string) error {
 	return nil
 }
 
+// HasFifo reports whether path names a FIFO.
+func (k *Kernel) HasFifo(path string) bool { _, ok := k.fifos[path]; return ok }
+
 const (
 	oRDONLY = 0
 	oWRONLY = 1
